@@ -9,6 +9,8 @@ from nix_manipulator.expressions import Identifier
 from nix_manipulator.exceptions import ResolutionError
 from nix_manipulator.cli.manipulations import set_value
 prop, seed, N = sys.argv[1], int(sys.argv[2]), int(sys.argv[3])
+reported_as = prop
+if prop == 'C05': prop = 'C11'        # C05 run: the same edits through references, judged as "exactly the requested change" (another binding must not be rewritten)
 R = random.Random(seed * 17 + sum(map(ord, prop)))
 NAMES = ['a', 'b', 'c', 'd']
 viol, dist, samples = [], {}, []
@@ -96,7 +98,22 @@ if prop == 'C10':
 if prop == 'C11':
     from nix_manipulator.cli.manipulations import remove_value
     def ap(src, op):
-        try: return ('ok', set_value(src, op[1], op[2]) if op[0] == 'set' else remove_value(src, op[1]))
+        try:
+            if op[0] == 'set': return ('ok', set_value(src, op[1], op[2]))
+            if op[0] == 'rm': return ('ok', remove_value(src, op[1]))
+            # the same edits through the mapping API (item access attaches the resolution context)
+            if op[0] == 'api_through':
+                x = src[op[1]]
+                if not isinstance(x, Identifier): return ('err', 'NotAReference')
+                x.value = int(op[2]) if op[2].isdigit() else op[2]
+            elif op[0] == 'api_read':
+                x = src[op[1]]
+                if isinstance(x, Identifier):
+                    try: x.value
+                    except ResolutionError: pass
+            elif op[0] == 'api_assign': src[op[1]] = int(op[2])
+            elif op[0] == 'api_del': del src[op[1]]
+            return ('ok', src.rebuild())
         except Exception as ex: return ('err', type(ex).__name__)
     for it in range(N // 2):
         doc = gen_doc(); text = show(doc) + '\n'
@@ -107,10 +124,22 @@ if prop == 'C11':
         try: obj = parse(text)
         except Exception: continue
         cur = text; ops = []
-        for step in range(R.randint(2, 4)):
+        # directed scenario (half of the documents): touch a reference, change which binding defines its name, edit through it again
+        script = []
+        refs = re.findall(r"([a-e]) = ([a-e]);", cur[cur.rfind('{'):]) if cur.count('{') == 1 else []
+        if refs and R.random() < 0.5:
+            k, n_ = R.choice(refs); val = lambda: str(R.randrange(100, 999))
+            script = [R.choice([('api_read', k), ('api_through', k, val()), ('set', k, val())]),
+                      R.choice([('api_assign', n_, val()), ('set', n_, val()), ('api_del', n_), ('rm', n_)]),
+                      R.choice([('api_through', k, val()), ('set', k, val())])]
+        for step in range(len(script) or R.randint(2, 4)):
             keys = re.findall(r"([a-e]) =", cur)
-            r = R.random()
-            if r < 0.6 and keys: op = ('set', R.choice(keys), str(R.randrange(100, 999)))
+            r = R.random() if not script else 2.0
+            body_keys = re.findall(r"([a-e]) =", cur[cur.rfind('{'):]) if '{' in cur else []
+            if r < 0.3 and body_keys and cur.count('{') == 1:          # mapping-API variants on the (single, un-nested) body set
+                k = R.choice(body_keys); op = R.choice([('api_through', k, str(R.randrange(100, 999))), ('api_read', k), ('api_assign', R.choice(NAMES), str(R.randrange(100, 999))), ('api_del', k)])
+            elif script: op = script[step]
+            elif r < 0.6 and keys: op = ('set', R.choice(keys), str(R.randrange(100, 999)))
             elif r < 0.8: op = ('set', R.choice(NAMES), R.choice([str(R.randrange(100, 999)), R.choice(NAMES)]))      # may create a shadowing binding or a new reference
             elif keys: op = ('rm', R.choice(keys))
             else: continue
